@@ -435,6 +435,33 @@ fn run(line: &str) -> String {
                 _ => "ERR BadOp".into(),
             }
         }
+        "depth_walk" => {
+            // deepest nesting of parse_cst / parse_rule / parse_member / parse_token frames
+            json_shape::verif_hooks::reset_depth();
+            let _ = JsonShape::from_str(&text_arg(a[1]));
+            format!("D {}", json_shape::verif_hooks::max_depth()[1])
+        }
+        "depth_value" => {
+            let v: serde_json::Value = serde_json::from_str(&doc_text(a[1])).unwrap();
+            json_shape::verif_hooks::reset_depth();
+            let _ = JsonShape::from(&v);
+            format!("D {}", json_shape::verif_hooks::max_depth()[0])
+        }
+        "depth_all" => {
+            // all four families for one text through the public entry points
+            json_shape::verif_hooks::reset_depth();
+            let t = text_arg(a[1]);
+            let r = JsonShape::from_str(&t);
+            if let Ok(sh) = &r {
+                let _ = sh.is_superset(&t);
+                let _ = JsonShape::from_sources(&[t.clone(), t.clone()]);
+            }
+            if let Ok(v) = serde_json::from_str::<serde_json::Value>(&t) {
+                let _ = JsonShape::from(&v);
+            }
+            let d = json_shape::verif_hooks::max_depth();
+            format!("D {} {} {} {}", d[0], d[1], d[2], d[3])
+        }
         "counts" => {
             // counts <what> args : call counters (value, text, merger, subset)
             json_shape::verif_hooks::reset_counters();
